@@ -141,6 +141,9 @@ def compare_defined(sess, chk, label, a, b, mk_replay, only_where_defined=True):
 
 
 def run_pair(sess, chk, version, vars_, written_b, label, mk_replay, obj_a=None):
+    if sess.m.verbose:
+        import time as _t
+        sys.stderr.write("[relational %s t=%.1f nodes=%d]\n" % (label, _t.time() - sess.t0, len(sess.m.nodes)))
     mod = sess.load("cvss")
     cls = mod.globals["CVSS%d" % version]
     vecb = vector_from_written(sess, version, vars_, written_b)
@@ -234,27 +237,246 @@ def task(version, fixed, label, which):
             sb = O.items_of(O.call_ok(sess, chk, objb, "scores", label=label))
             O.must_hold(sess, chk, O.eq_cond(sess, sa[2], sb[2]), "%s (d): environmental score independent of overridden base metrics" % label, mk_replay)
         # (e): temporal and environmental metrics do not change the base score; environmental
-        # metrics do not change the temporal score
+        # metrics do not change the temporal score.  First the cheap, sufficient argument: the
+        # swept guards of the score do not mention those variables at all (syntactic support).
+        # Only if they do is the relation decided by a second run with independent variables.
         tnames = g_["temporal"]
         enames = g_["environmental"]
-        wb = dict(base_written)
-        for met in tnames + enames:
-            ov = m.new_var("e1." + met, list(vars_[met].domain) if met not in fixed else [ABSENT] + list(G.legal(g_, met)))
-            wb[met] = sub_free_when(sess, version, vars_, met, ov, m.TRUE)
-        current.update(written=wb, vars_b=None, clause="e-base", compare="base")
-        objb, vecb = run_pair(sess, chk, version, vars_, wb, label + " (e)", mk_replay)
-        sb = O.items_of(O.call_ok(sess, chk, objb, "scores", label=label))
-        O.must_hold(sess, chk, O.eq_cond(sess, sa[0], sb[0]), "%s (e): base score independent of temporal and environmental metrics" % label, mk_replay)
-        wb = dict(base_written)
-        for met in enames:
-            ov = m.new_var("e2." + met, list(vars_[met].domain) if met not in fixed else [ABSENT] + list(G.legal(g_, met)))
-            wb[met] = sub_free_when(sess, version, vars_, met, ov, m.TRUE)
-        current.update(written=wb, vars_b=None, clause="e-temporal", compare="temporal")
-        objb, vecb = run_pair(sess, chk, version, vars_, wb, label + " (e')", mk_replay)
-        sb = O.items_of(O.call_ok(sess, chk, objb, "scores", label=label))
-        O.must_hold(sess, chk, O.eq_cond(sess, sa[1], sb[1]), "%s (e): temporal score independent of environmental metrics" % label, mk_replay)
-        O.must_hold(sess, chk, O.eq_cond(sess, sa[0], sb[0]), "%s (e): base score independent of environmental metrics" % label, mk_replay)
+
+        def support_of(v):
+            return m.support([g for g, _ in vc.alts(v)])
+
+        def second_run(names, tag, slot, what):
+            wb = dict(base_written)
+            for met in names:
+                ov = m.new_var("%s.%s" % (tag, met), list(vars_[met].domain) if met not in fixed else [ABSENT] + list(G.legal(g_, met)))
+                wb[met] = sub_free_when(sess, version, vars_, met, ov, m.TRUE)
+            current.update(written=wb, vars_b=None, clause=tag, compare=["base", "temporal", "environmental"][slot])
+            objb, vecb = run_pair(sess, chk, version, vars_, wb, label + " (e)", mk_replay)
+            sb = O.items_of(O.call_ok(sess, chk, objb, "scores", label=label))
+            O.must_hold(sess, chk, O.eq_cond(sess, sa[slot], sb[slot]), what, mk_replay)
+
+        for slot, names, what in ((0, tnames + enames, "%s (e): base score independent of temporal and environmental metrics" % label),
+                                  (1, enames, "%s (e): temporal score independent of environmental metrics" % label)):
+            dep = sorted(set(vars_[x].name for x in names) & support_of(sa[slot]))
+            if not dep:
+                chk.add_vc(what + " [no such variable in the support of the swept score guards]", "unsat", 0, 0, trivial=True)
+            else:
+                second_run(names, "e%d" % slot, slot, what)
     w = m.pattern_assignment(0)
     chk.witnesses.append({"task": label, "a": sess.vector_string(version, w)})
+    chk.absorb(sess)
+    return chk.to_dict()
+
+
+def task_v4_nd(label):
+    """v4, Not-Defined spelling: the filled-in metric map (all that scoring reads), the cleaned
+    vector, equality and hash are unchanged; score abstracted (shared relation: see assumptions)"""
+    version = 4
+    chk = Check("C05")
+    sess = Session()
+    vars_ = sess.assign_vars(version)
+    m, vc = sess.m, sess.vc
+    g_ = G.GRAMMARS[version]
+    optional = [met for met, _ in g_["metrics"] if met not in g_["mandatory"]]
+    current = {}
+
+    def mk_replay(model, what):
+        wb = current["written"]
+        parts = ["CVSS:4.0"]
+        for met, _ in g_["metrics"]:
+            w = wb[met]
+            if m.eval_nodes([w.pres], model)[0]:
+                parts.append(sess.concretize(w.val, model))
+        return {"kind": "relational", "property": "C05", "clause": "nd-spelling", "version": 4, "a": sess.vector_string(4, model), "b": "/".join(parts), "what": what, "compare": "all"}
+
+    obj, vec, mod = O.make_object(sess, chk, version, vars_, label)
+    base_written = {met: written_from_var(sess, met, vars_[met]) for met, _ in g_["metrics"]}
+    sel = {met: m.new_var("sel_nd_" + met, [0, 1]) for met in optional}
+    wb = dict(base_written)
+    for met in optional:
+        wb[met] = sub_nd_spelling(sess, version, vars_, met, sel[met])
+    current["written"] = wb
+    objb, vecb = run_pair(sess, chk, version, vars_, wb, label, mk_replay)
+    m1, m2 = obj.attrs["metrics"], objb.attrs["metrics"]
+    for k in m1.keys:
+        if k not in m2.pres:
+            O.must_not(sess, chk, m1.pres[k].l, "%s: metric map lacks %s after respelling" % (label, k), mk_replay)
+            continue
+        O.must_not(sess, chk, m.XOR(m1.pres[k].l, m2.pres[k].l), "%s: presence of %s in the filled-in metric map unchanged" % (label, k), mk_replay)
+        O.must_hold(sess, chk, O.eq_cond(sess, m1.vals[k], m2.vals[k]), "%s: effective %s unchanged by Not-Defined spelling" % (label, k), mk_replay)
+    for k in m2.keys:
+        if k not in m1.pres:
+            O.must_not(sess, chk, m2.pres[k].l, "%s: metric map gains %s after respelling" % (label, k), mk_replay)
+    for acc in ["clean_vector"]:
+        ra = O.call_ok(sess, chk, obj, acc, label=label)
+        rb = O.call_ok(sess, chk, objb, acc, label=label)
+        O.must_hold(sess, chk, O.eq_cond(sess, ra, rb), "%s: %s() unchanged by Not-Defined spelling" % (label, acc), mk_replay)
+    O.must_hold(sess, chk, O.eq_cond(sess, obj, objb), "%s: objects equal across Not-Defined spellings" % label, mk_replay)
+    ha = O.call_ok(sess, chk, obj, "__hash__", label=label)
+    hb = O.call_ok(sess, chk, objb, "__hash__", label=label)
+    O.must_hold(sess, chk, O.eq_cond(sess, ha, hb), "%s: hash equal across Not-Defined spellings" % label, mk_replay)
+    chk.witnesses.append({"task": label, "a": sess.vector_string(4, m.pattern_assignment(0))})
+    chk.absorb(sess)
+    return chk.to_dict()
+
+
+def relational_tasks(which):
+    tasks = []
+    for version in (2, 3):
+        for (v, fixed, label) in split_tasks(version):
+            tasks.append(("task", (v, fixed, label, which)))
+    return tasks
+
+
+SCORING4 = ["AV", "PR", "UI", "AC", "AT", "VC", "VI", "VA", "SC", "SI", "SA", "CR", "IR", "AR", "E"]
+MODIFIED4 = ["MAV", "MAC", "MAT", "MPR", "MUI", "MVC", "MVI", "MVA", "MSC", "MSI", "MSA"]
+SUPPLEMENTAL4 = ["S", "AU", "R", "V", "RE", "U"]
+
+
+def task_v4_effective(clause):
+    """v4: the effective value m(k) of every scoring input k - all that macroVector() and
+    compute_base_score() read - is invariant under the substitution (real m() executed on both
+    objects).  With C02 (score == specification(effective values) on all inputs, supplemental
+    metrics included) this gives clause (a)-(d) for the v4 score."""
+    version = 4
+    chk = Check("C06")
+    sess = Session()
+    vars_ = sess.assign_vars(version)
+    m, vc = sess.m, sess.vc
+    g_ = G.GRAMMARS[version]
+    label = "v4 (%s)" % clause
+    current = {}
+
+    def mk_replay(model, what):
+        wb = current["written"]
+        parts = ["CVSS:4.0"]
+        for met, _ in g_["metrics"]:
+            w = wb[met]
+            if m.eval_nodes([w.pres], model)[0]:
+                parts.append(sess.concretize(w.val, model))
+        return {"kind": "relational", "property": "C06", "clause": clause, "version": 4, "a": sess.vector_string(4, model), "b": "/".join(parts), "what": what, "compare": "base"}
+
+    obj, vec, mod = O.make_object(sess, chk, version, vars_, label)
+    base_written = {met: written_from_var(sess, met, vars_[met]) for met, _ in g_["metrics"]}
+    wb = dict(base_written)
+    if clause == "a+b":
+        for met in MODIFIED4:
+            sel = m.new_var("sel_a_" + met, [0, 1])
+            wb[met] = sub_set_value(sess, version, vars_, met, sel, value_labels(sess, vars_[met[1:]]))
+        for met, eqv in EQUIV[4].items():
+            sel = m.new_var("sel_b_" + met, [0, 1])
+            wb[met] = sub_set_value(sess, version, vars_, met, sel, eqv)
+    elif clause == "c":
+        for met in SUPPLEMENTAL4:
+            ov = m.new_var("c." + met, list(vars_[met].domain))
+            wb[met] = sub_free_when(sess, version, vars_, met, ov, m.TRUE)
+    elif clause == "d":
+        for met in MODIFIED4:
+            base = met[1:]
+            ov = m.new_var("d." + base, list(vars_[base].domain))
+            cond = m.NOT(undefined_guard(sess, version, vars_[met]))
+            wb[base] = sub_free_when(sess, version, vars_, base, ov, cond)
+    current["written"] = wb
+    objb, vecb = run_pair(sess, chk, version, vars_, wb, label, mk_replay)
+    for k in SCORING4:
+        ea = O.call_ok(sess, chk, obj, "m", args=[k], label=label)
+        eb = O.call_ok(sess, chk, objb, "m", args=[k], label=label)
+        O.must_hold(sess, chk, O.eq_cond(sess, ea, eb), "%s: effective value of %s unchanged" % (label, k), mk_replay)
+    mva = O.call_ok(sess, chk, obj, "macroVector", label=label)
+    mvb = O.call_ok(sess, chk, objb, "macroVector", label=label)
+    O.must_hold(sess, chk, O.eq_cond(sess, mva, mvb), "%s: macrovector unchanged" % label, mk_replay)
+    chk.witnesses.append({"task": label, "a": sess.vector_string(4, m.pattern_assignment(0))})
+    chk.absorb(sess)
+    return chk.to_dict()
+
+
+def main_c06():
+    chk = Check("C06")
+    tasks = relational_tasks("C06") + [("task_v4_effective", (c,)) for c in ("a+b", "c", "d")]
+    for r in C.run_named_tasks("harness.relational", tasks):
+        chk.absorb_dict(r)
+    chk.input_model = ("two related runs per session: object A from the M-ASSIGN variables, object B from the vector obtained by the substitution under test applied to an arbitrary subset of the eligible metrics "
+                       "(one selector variable per metric); v2 27 and v3 48 sessions with real scoring of both objects; v4: the real effective-value function m() and macroVector() on both objects")
+    chk.bounds = ["none on the metric domain; every subset of eligible metrics (selector variables)"]
+    chk.outside = ["v4 score itself: (a)-(d) follow from invariance of the effective values (checked here on the real m()) together with C02 (score == specification(effective values) for every assignment, supplemental metrics included); the thorough tier of C02 is the place where the v4 score is re-derived"]
+    chk.assumptions = ["equivalence tables of clause (b) typed from the standards (harness/relational.py EQUIV)",
+                       "v4: CVSS4.macroVector()/compute_base_score() read metric values only through m() (true of the pinned source; C02 would refute a change that reads them elsewhere and alters a score)"]
+    C.finish(chk)
+
+
+def main_c05():
+    chk = Check("C05")
+    tasks = relational_tasks("C05") + [("task_v4_nd", ("v4[score abstracted]",))]
+    for r in C.run_named_tasks("harness.relational", tasks):
+        chk.absorb_dict(r)
+    comm = [("task_comm", (v,)) for v in (2, 3, 4)]
+    for r in C.run_named_tasks("harness.parse_lemmas", comm):
+        chk.absorb_dict(r)
+    acc = [("task_vector_independence", (v,)) for v in (2, 3, 4)]
+    for r in C.run_named_tasks("harness.relational", acc):
+        chk.absorb_dict(r)
+    chk.input_model = ("Not-Defined spelling: two related runs (A from the variables, B with ABSENT<->explicit ND/X toggled on an arbitrary subset of optional metrics), all outputs compared; "
+                       "field order: commutation lemma on the real loop body of parse_vector (two field slots over the legal literals + near misses, both orders, from an arbitrary metric map) "
+                       "and independence of every accessor from the raw input string (executed with the string replaced by an opaque token)")
+    chk.bounds = ["commutation lemma: slot alphabet = every legal literal + a near-miss list (size in evidence)", "v4 scores under Not-Defined respelling: via equality of the filled-in metric map (the only state scoring reads)"]
+    chk.outside = ["permutations of more than two fields: written induction over adjacent transpositions (every permutation is a product of them; the loop state after any prefix is an 'arbitrary state' of the lemma)"]
+    chk.assumptions = ["the code around the loop does not look at field order (C04 L2: it only inspects emptiness, the last character and the head)",
+                       "as_json()['vectorString'] echoes the input by design (C11) and is therefore the one output that legitimately depends on the spelling"]
+    C.finish(chk)
+
+
+def task_vector_independence(version):
+    """every accessor named in C05 is a function of the parsed state only: executed with
+    self.vector replaced by an opaque token, no result may contain or branch on it"""
+    chk = Check("C05")
+    sess = Session()
+    vars_ = sess.assign_vars(version)
+    m, vc = sess.m, sess.vc
+    label = "v%d accessors vs raw string" % version
+    mod = sess.load("cvss")
+    C.set_epoch(1)
+    sess.begin(mod)
+    O.abstract_scores(sess, mod, version)
+    sess._abs4 = True
+    obj, vec, mod = O.make_object(sess, chk, version, vars_, label)
+    token = C.Opaque("raw-input-string")
+    obj.attrs["vector"] = token
+
+    def mk_replay(model, what):
+        return {"kind": "c07_single", "version": version, "vector": sess.vector_string(version, model), "what": what}
+
+    def contains(v, depth=0):
+        if v is token:
+            return True
+        if depth > 6:
+            return False
+        if isinstance(v, U):
+            return any(contains(l, depth + 1) for _, l in v.alts)
+        if isinstance(v, C.Opaque):
+            return any(contains(a, depth + 1) for a in v.args)
+        if isinstance(v, SymList):
+            return any(contains(e, depth + 1) for _, e in v.elems)
+        if isinstance(v, SymDict):
+            return any(contains(x, depth + 1) for x in v.vals.values())
+        if isinstance(v, StructStr):
+            return any(contains(s, depth + 1) for _, s in v.chunks)
+        if isinstance(v, (tuple, list)):
+            return any(contains(x, depth + 1) for x in v)
+        return False
+
+    accs = ["scores", "severities", "clean_vector", "rh_vector", "__hash__"] + (["temporal_vector", "environmental_vector"] if version in (2, 3) else [])
+    for acc in accs:
+        try:
+            r = O.call_ok(sess, chk, obj, acc, label=label, mk_replay=mk_replay)
+        except C.Unsupported as e:
+            if "opaque" in str(e):
+                O.must_not(sess, chk, m.TRUE, "%s: %s() branches on the raw input string" % (label, acc), mk_replay)
+                continue
+            raise
+        if contains(r):
+            O.must_not(sess, chk, m.TRUE, "%s: %s() depends on the raw input string" % (label, acc), mk_replay)
+        else:
+            chk.add_vc("%s: %s() does not use the raw input string" % (label, acc), "unsat", 0, 0, trivial=True)
     chk.absorb(sess)
     return chk.to_dict()
